@@ -11,8 +11,10 @@ package c03
 import (
 	"fmt"
 	"go/ast"
+	"go/token"
 	"go/types"
 	"sort"
+	"strings"
 
 	"golang.org/x/tools/go/cfg"
 
@@ -168,11 +170,13 @@ func (x *XGraph) Path(q XQuery) []string {
 		b    *cfg.Block
 		i, k int
 		prev *state
+		env  xenv
 	}
 	type key struct {
 		c    *XCtx
 		b    *cfg.Block
 		i, k int
+		env  string
 	}
 	start := q.From
 	if start.C == nil {
@@ -200,6 +204,7 @@ func (x *XGraph) Path(q XQuery) []string {
 		return out
 	}
 	visited := map[key]bool{}
+	trk := &xtracker{addr: map[types.Object]bool{}}
 	first := &state{c: start.C, b: start.P.B, i: start.P.I}
 	skipFirst := q.After
 	if q.After {
@@ -211,16 +216,17 @@ func (x *XGraph) Path(q XQuery) []string {
 		queue = queue[1:]
 		c, b := s.c, s.b
 		i, k := s.i, s.k
+		env := s.env
 		cut, entered := false, false
 		for ; i < len(b.Nodes) && !cut && !entered; i, k = i+1, 0 {
 			n := b.Nodes[i]
 			calls := x.followable(c, n)
 			if k < len(calls) {
 				kc := x.kid(c, calls[k], b, i, k+1)
-				kk := key{kc, kc.G.CFG.Blocks[0], 0, 0}
+				kk := key{kc, kc.G.CFG.Blocks[0], 0, 0, env.key()}
 				if !visited[kk] {
 					visited[kk] = true
-					queue = append(queue, &state{c: kc, b: kc.G.CFG.Blocks[0], prev: s})
+					queue = append(queue, &state{c: kc, b: kc.G.CFG.Blocks[0], prev: s, env: env})
 				}
 				// (a helper already entered from this call returns to the same continuation)
 				entered = true
@@ -236,6 +242,7 @@ func (x *XGraph) Path(q XQuery) []string {
 			if q.Avoid != nil && q.Avoid(xn) {
 				cut = true
 			}
+			env = env.kill(c.Info, n)
 		}
 		if cut || entered {
 			continue
@@ -249,10 +256,10 @@ func (x *XGraph) Path(q XQuery) []string {
 					}
 					continue
 				}
-				rk := key{c.Parent, c.retB, c.retI, c.retK}
+				rk := key{c.Parent, c.retB, c.retI, c.retK, env.key()}
 				if !visited[rk] {
 					visited[rk] = true
-					queue = append(queue, &state{c: c.Parent, b: c.retB, i: c.retI, k: c.retK, prev: s})
+					queue = append(queue, &state{c: c.Parent, b: c.retB, i: c.retI, k: c.retK, prev: s, env: env})
 				}
 			}
 			continue
@@ -261,10 +268,16 @@ func (x *XGraph) Path(q XQuery) []string {
 			if q.AvoidEdge != nil && q.AvoidEdge(c, b, si) {
 				continue
 			}
-			tk := key{c, t, 0, 0}
+			// what the branch establishes about error / bool locals must agree with what earlier
+			// branches of this path established (the variable not having been written in between)
+			env2, feasible := env.branch(trk, c, b, si)
+			if !feasible {
+				continue
+			}
+			tk := key{c, t, 0, 0, env2.key()}
 			if !visited[tk] {
 				visited[tk] = true
-				queue = append(queue, &state{c: c, b: t, prev: s})
+				queue = append(queue, &state{c: c, b: t, prev: s, env: env2})
 			}
 		}
 	}
@@ -337,4 +350,138 @@ func equalFold(a, b string) bool {
 		}
 	}
 	return true
+}
+
+// xenv: what the branches taken so far established about locals: an error (or
+// other nil-able) local is nil / non-nil, a bool local is true / false. A
+// fact dies when the variable is written; variables whose address is taken
+// are not tracked. At most four facts are kept.
+type xfact struct {
+	obj types.Object
+	val bool // bool: the value; otherwise: "is nil"
+}
+
+type xenv []xfact
+
+type xtracker struct{ addr map[types.Object]bool }
+
+func (e xenv) key() string {
+	if len(e) == 0 {
+		return ""
+	}
+	parts := make([]string, len(e))
+	for i, f := range e {
+		parts[i] = fmt.Sprintf("%p=%v", f.obj, f.val)
+	}
+	sort.Strings(parts)
+	return strings.Join(parts, ";")
+}
+
+func (e xenv) kill(info *types.Info, n ast.Node) xenv {
+	if len(e) == 0 {
+		return e
+	}
+	dead := map[types.Object]bool{}
+	mark := func(x ast.Expr) {
+		if id, ok := ast.Unparen(x).(*ast.Ident); ok {
+			if o := core.ObjOf(info, id); o != nil {
+				dead[o] = true
+			}
+		}
+	}
+	ast.Inspect(n, func(m ast.Node) bool {
+		switch y := m.(type) {
+		case *ast.FuncLit:
+			return false
+		case *ast.AssignStmt:
+			for _, l := range y.Lhs {
+				mark(l)
+			}
+		case *ast.IncDecStmt:
+			mark(y.X)
+		case *ast.ValueSpec:
+			for _, nm := range y.Names {
+				if o := info.Defs[nm]; o != nil {
+					dead[o] = true
+				}
+			}
+		case *ast.RangeStmt:
+			if y.Key != nil {
+				mark(y.Key)
+			}
+			if y.Value != nil {
+				mark(y.Value)
+			}
+		}
+		return true
+	})
+	if len(dead) == 0 {
+		return e
+	}
+	var out xenv
+	for _, f := range e {
+		if !dead[f.obj] {
+			out = append(out, f)
+		}
+	}
+	return out
+}
+
+func (e xenv) branch(t *xtracker, c *XCtx, b *cfg.Block, si int) (xenv, bool) {
+	if len(b.Succs) != 2 || c.Fl == nil || cfgq.CondOf(b) == nil {
+		return e, true
+	}
+	out := e
+	for _, ft := range c.Fl.Facts(b, si) {
+		var obj types.Object
+		var val bool
+		if o, v := BoolFact(c.Info, ft); o != nil {
+			obj, val = o, v
+		} else {
+			var id *ast.Ident
+			eq, ok := EqFact(ft, func(x ast.Expr) bool {
+				i2, isID := ast.Unparen(x).(*ast.Ident)
+				if isID && !core.IsNil(c.Info, x) {
+					id = i2
+				}
+				return isID && !core.IsNil(c.Info, x)
+			}, func(x ast.Expr) bool { return core.IsNil(c.Info, x) })
+			if !ok || id == nil {
+				continue
+			}
+			obj, val = core.ObjOf(c.Info, id), eq
+		}
+		v, isVar := obj.(*types.Var)
+		if !isVar || v.IsField() || v.Pkg() == nil || v.Parent() == v.Pkg().Scope() {
+			continue
+		}
+		taken, known := t.addr[obj]
+		if !known {
+			if c.Scope != nil {
+				core.InspectAll(c.Scope, func(m ast.Node) bool {
+					if u, ok := m.(*ast.UnaryExpr); ok && u.Op == token.AND && IsObj(c.Info, obj)(u.X) {
+						taken = true
+					}
+					return true
+				})
+			}
+			t.addr[obj] = taken
+		}
+		if taken {
+			continue
+		}
+		found := false
+		for _, f := range out {
+			if f.obj == obj {
+				found = true
+				if f.val != val {
+					return e, false
+				}
+			}
+		}
+		if !found && len(out) < 4 {
+			out = append(append(xenv{}, out...), xfact{obj, val})
+		}
+	}
+	return out, true
 }
